@@ -8,12 +8,13 @@ from pathlib import Path
 V = Path("/verif")
 OWN5 = {"i-evasive1": ["C07"], "i-evasive2": ["C06"], "i-evasive3": ["C02"], "j-evasive1": ["C20"], "j-evasive2": ["C20"], "j-evasive3": ["C20"], "j-evasive4": ["C09"],
         "j-evasive5": ["C13"], "j-evasive6": ["C20"], "j-evasive7": ["C19"], "j-evasive8": ["C13"], "j-evasive9": ["C20"], "j-evasive10": ["C15"], "j-evasive11": ["C11"]}
+OWN_OVERRIDE = {"r2-C08-1": ["C16"]}       # BOCD aliasing its configuration's model at construction: an isolation defect, reported by C16 (DESIGN 11.7)
 OUT_OF_SCOPE = {"e-evasive4", "e-evasive5", "f-evasive13"}
 jobs = []
 old = json.loads((V / "seeded/redteam/matrix.json").read_text())
 for d in sorted((V / "seeded").iterdir()):
     if d.is_dir() and (d / "patch.diff").exists():
-        jobs.append((d.name, d / "patch.diff", [x for x in d.name.split("-") if x.startswith("C")][:1]))
+        jobs.append((d.name, d / "patch.diff", OWN_OVERRIDE.get(d.name) or [x for x in d.name.split("-") if x.startswith("C")][:1]))
 for f in sorted((V / "seeded/redteam").glob("*.diff")):
     name = f.stem
     if name in OUT_OF_SCOPE:
@@ -54,6 +55,7 @@ def run(job):
 with ThreadPoolExecutor(int(os.environ.get("JOBS", "5"))) as ex:
     results = dict(ex.map(run, enumerate(jobs)))
 subprocess.run(["git", "-C", "/repo", "worktree", "prune"])
-(V / "seeded/regress.json").write_text(json.dumps({"seed": seed, "results": results}, indent=1))
+prev = json.loads((V / "seeded/regress.json").read_text()).get("results", {}) if only and (V / "seeded/regress.json").exists() else {}
+(V / "seeded/regress.json").write_text(json.dumps({"seed": seed, "results": {**prev, **results}}, indent=1, sort_keys=True))
 missed = [n for n, r in results.items() if not any(v in ("violation-with-input", "no-failing-input-found") for v in r.values())]
 print("MISSED:", missed)
